@@ -104,7 +104,32 @@ class C07(core.Check):
             synced = (not edits and not reconf) or (bool(reconf) and reconf[-1][0] == 'reindex')
             final = (not synced) or rng.random() < 0.4
             cases.append(dict(flags=flags, attr_indexes=attrs, first=first, toks=toks, edits=edits, reconf=reconf, final=final, queries=queries))
-        self.stats.update(histories=n)
+        # directed: an attribute index that is added, removed, added again ... and then searched on that very attribute, with values
+        # that occur in the document
+        nd = 24 if self.tier == 'quick' else 300
+        for i in range(nd):
+            a = ['data-x', 'name'][i % 2]
+            vals = c06.DATAVALS if a == 'data-x' else c06.NAMEVALS
+            toks = c06.gen_doc(rng, 14 if self.tier == 'quick' else 40, multi=rng.random() < 0.1)
+            reconf = rng.choice([[['removeindex', a]],
+                                 [['removeindex', a], ['reindex', [None, None, None, None]]],
+                                 [['removeindex', a], ['addindex', a]],
+                                 [['addindex', a.upper()], ['removeindex', a]],
+                                 [['removeindex', a], ['addindex', a], ['removeindex', a]],
+                                 [['disable'], ['removeindex', a], ['reindex', [True, True, True, True]]]])
+            edits = []
+            nel = sum(1 for t in toks if t[0] == 'S')
+            if rng.random() < 0.4:
+                edits.append(['setattr', rng.randrange(nel), a, rng.choice(vals)])
+            queries = []
+            for _ in range(6):
+                q = ['attr', a, rng.choice(vals)] if rng.random() < 0.5 else ['attrvalues', a, rng.sample(vals, rng.randint(1, min(3, len(vals))))]
+                queries.append(dict(q=q, sub=rng.random() < 0.3, sel=rng.random()))
+            for _ in range(4):
+                queries.append(dict(q=gen_iquery(rng), sub=rng.random() < 0.35, sel=rng.random()))
+            cases.append(dict(flags=[rng.random() < 0.6 for _ in range(4)], attr_indexes=[a] if i % 3 else [], first=c06.gen_doc(rng, 6) if i % 4 == 0 else None,
+                              toks=toks, edits=edits, reconf=reconf, final=True, queries=queries))
+        self.stats.update(histories=n, directed_attribute_index_histories=nd)
         return cases
 
     # ------------------------------------------------------------------ executing a history
